@@ -314,6 +314,31 @@ func runC13(r *Run) {
 	for _, e := range []string{"item | double | . > 5", `name | upper | default("x", 2)`, "len(items)", "fn()", "a.b | f(1, 'x,y', z) | g", " x | y ", "a === b", "a !== b", "a====b", "x | f(a | b)", "f(a)(b)", "9fn(x)", "_f(x) | g()", "a - b", "a-b", "a ? b : c", "a?b", "price | . > 100 ? 'hi' : 'lo'", "x || y", "f(')')", "f(a, b))", "len(a) + len(b)", "len(a) == len(b)", "f(x) > g(y)", "f(a) && g(b)", "f(a) ? g(b) : h(c)", "f(a) - 1", "f(g(x))", "f(a)+g(b)", "f(a) | g(b)", "len(xs) + 2"} {
 		classify(e, true)
 	}
+	// argument lists: every string up to length 3 (thorough 5) over quotes of both kinds, commas, blanks, parentheses and
+	// a pipe, as the arguments of a filter and of a direct call - a quote of the other kind, a comma or a parenthesis
+	// inside a string literal belongs to the literal
+	argAlphabet := []string{"a", "'", "\"", ",", " ", "(", ")", "|"}
+	argMax := 3
+	if r.Thorough() {
+		argMax = 5
+	}
+	var recArgs func(p string)
+	recArgs = func(p string) {
+		if p != "" {
+			classify("x | f("+p+")", true)
+			classify("f("+p+")", true)
+		}
+		if len(p) == argMax {
+			return
+		}
+		for _, c := range argAlphabet {
+			recArgs(p + c)
+		}
+	}
+	recArgs("")
+	for _, e := range []string{`x | default("hasn't")`, `default('say "hi"')`, `x | join2("a'b", 'c"d')`, `f("a, b", 'c, d')`, `x | f("it's", "a|b") | g('"')`, `f('(', ")")`, `x | f(" a ", ' b')`, `f("'", '"', "','")`, `x | f("a\"b")`, `f('')`, `x | f("", '')`} {
+		classify(e, true)
+	}
 	c13Floats(r)
 	c13Mixed(r)
 	// ---------- positions ----------
